@@ -438,13 +438,19 @@ Fixpoint ls_run (s : slru) (os : list sop) : res (slru * list hout) :=
   | o :: rest => do (s1, r) <- ls_step s o; do (s2, rs) <- ls_run s1 rest; Ok (s2, r :: rs)
   end.
 
+Lemma slru_run_refines_gen Fx : forall os h s ls, RS Fx h s ls -> slru_inv ls ->
+            exists h1 s1 ls1 outs, hs_run h s os = HOk (h1, s1, outs) /\ ls_run ls os = Ok (ls1, outs) /\ RS Fx h1 s1 ls1 /\ slru_inv ls1.
+Proof.
+  induction os as [|o rest IH]; intros h s ls HR Hinv; [cbn; eauto 10|].
+  cbn [hs_run ls_run].
+  destruct (slru_step_refines Fx h s ls o HR Hinv) as (h1 & s1 & ls1 & r & -> & -> & HR1 & Hinv1). cbn [hbind bind].
+  destruct (IH h1 s1 ls1 HR1 Hinv1) as (h2 & s2 & ls2 & outs & -> & -> & HR2 & Hinv2). cbn [hbind bind]. eauto 10.
+Qed.
+
 Lemma slru_run_refines : forall os h s ls, RS [] h s ls -> slru_inv ls ->
             exists h1 s1 ls1 outs, hs_run h s os = HOk (h1, s1, outs) /\ ls_run ls os = Ok (ls1, outs) /\ RS [] h1 s1 ls1.
 Proof.
- induction os as [|o rest IH]; intros h s ls HR Hinv; [cbn; eauto 10|].
-    cbn [hs_run ls_run].
-    destruct (slru_step_refines [] h s ls o HR Hinv) as (h1 & s1 & ls1 & r & -> & -> & HR1 & Hinv1). cbn [hbind bind].
-    destruct (IH h1 s1 ls1 HR1 Hinv1) as (h2 & s2 & ls2 & outs & -> & -> & HR2). cbn [hbind bind]. eauto 10.
+  intros os h s ls HR Hinv. destruct (slru_run_refines_gen [] os h s ls HR Hinv) as (h1 & s1 & ls1 & outs & A & B & C & _). eauto 10.
 Qed.
 
 Theorem slru_history_safe pc fc os :
@@ -471,3 +477,29 @@ Example slru_runs :
   | HErr _ => False
   end.
 Proof. vm_compute. reflexivity. Qed.
+
+(** ** independence of a clone (C16): clone and original side by side in one heap; whatever history the clone goes
+    through, the original is the same abstract cache on the same nodes *)
+Theorem slru_clone_independent Fx h s ls os :
+  RS Fx h s ls -> slru_inv ls ->
+  exists h1 s1, hs_clone h s = HOk (h1, s1) /\
+  exists h2 s1' ls1 outs, hs_run h1 s1 os = HOk (h2, s1', outs) /\ ls_run ls os = Ok (ls1, outs) /\
+  exists la' lb', RS ((hprob s1', la') :: (hprot s1', lb') :: Fx) h2 s ls.
+Proof.
+  intros (la & lb & Hf & Ea & Eb & Ca & Cb) Hinv. pose proof Hinv as (_ & _ & Hla & Hlb & _).
+  assert (La : length la <= hcap (hprob s)) by (rewrite Ca, <- entries_len, Ea; exact Hla).
+  assert (Lb : length lb <= hcap (hprot s)) by (rewrite Cb, <- entries_len, Eb; exact Hlb).
+  destruct (hs_clone_ok h _ s la lb Hf (or_introl eq_refl) (or_intror (or_introl eq_refl)) La Lb)
+    as (h1 & s1 & la1 & lb1 & E & Hf1 & Ea1 & Eb1 & Ca1 & Cb1 & _).
+  exists h1, s1. split; [exact E|].
+  assert (HR1 : RS ((hprob s, la) :: (hprot s, lb) :: Fx) h1 s1 ls).
+  { exists la1, lb1. split; [exact (fam_perm _ _ _ _ Hf1 (perm_swap _ _ _))|]. repeat split; congruence. }
+  destruct (slru_run_refines_gen _ os h1 s1 ls HR1 Hinv) as (h2 & s1' & ls1 & outs & E1 & E2 & (la' & lb' & Hf2 & _) & _).
+  exists h2, s1', ls1, outs. split; [exact E1|]. split; [exact E2|].
+  exists la', lb', la, lb. split; [|repeat split; assumption].
+  eapply fam_perm; [exact Hf2|].
+  (* A' :: B' :: A :: B :: Fx  ~  A :: B :: A' :: B' :: Fx *)
+  set (A' := (hprob s1', la')). set (B' := (hprot s1', lb')). set (A := (hprob s, la)). set (B := (hprot s, lb)).
+  change (Permutation ([A'; B'] ++ [A; B] ++ Fx) ([A; B] ++ [A'; B'] ++ Fx)).
+  rewrite !app_assoc. apply Permutation_app_tail. apply Permutation_app_comm.
+Qed.
